@@ -7,11 +7,12 @@ The driver maps the kernel over the components (the C++ does the same, coefficie
 coefficient), so the Float instance is bit-exact.
 """
 import json
+import re
 import sys
 import os
 sys.path.insert(0, os.path.dirname(os.path.abspath(__file__)))
 import cxxparse as cp
-from lean_emit import Emitter, file_header, FILE_FOOTER
+from lean_emit import Emitter, file_header, FILE_FOOTER, dotted
 
 REPO = os.environ.get('VERIF_REPO', '/repo')
 INC = REPO + '/src/alpaqa/include/alpaqa/'
@@ -19,6 +20,54 @@ INC = REPO + '/src/alpaqa/include/alpaqa/'
 
 def S(*names):
     return {n: (cp.mangle(n.replace('.', '_')), 'S') for n in names}
+
+
+def cplx_component(ast, var, comp):
+    """Rewrite an AST over a std::complex variable `var` into the AST of one component:
+    `var.real()` / `var.imag()` ↦ the component variables, `var` in value position ↦ `var_<comp>`."""
+    if not isinstance(ast, tuple):
+        if isinstance(ast, list):
+            return [cplx_component(a, var, comp) for a in ast]
+        return ast
+    if ast[0] == 'call' and ast[1][0] == 'mem' and ast[1][1] == ('id', var) and not ast[2]:
+        if ast[1][2] == 'real':
+            return ('id', var + '_re')
+        if ast[1][2] == 'imag':
+            return ('id', var + '_im')
+        raise cp.TranslationError(f'unsupported complex method .{ast[1][2]}()')
+    if ast == ('id', var):
+        return ('id', f'{var}_{comp}')
+    return tuple(cplx_component(a, var, comp) for a in ast)
+
+
+def cplx_vector_ops(ast):
+    """`norm_1(e)` on a complex vector ↦ cnorm_1(e); `e.cwiseProduct(w)` ↦ cscale(e, w)."""
+    if not isinstance(ast, tuple):
+        if isinstance(ast, list):
+            return [cplx_vector_ops(a) for a in ast]
+        return ast
+    if ast[0] == 'call' and ast[1] == ('id', 'norm_1') and len(ast[2]) == 1:
+        return ('call', ('id', 'cnorm_1'), [cplx_vector_ops(ast[2][0])], None)
+    if ast[0] == 'call' and ast[1][0] == 'mem' and ast[1][2] == 'cwiseProduct' and len(ast[2]) == 1:
+        return ('call', ('id', 'cscale'), [cplx_vector_ops(ast[1][1]), cplx_vector_ops(ast[2][0])], None)
+    return tuple(cplx_vector_ops(a) for a in ast)
+
+
+def find_to_index(ast):
+    """`std::find(X.begin(), X.end(), c)` ↦ find_first(X, c) (an index; `X.end()` = size)."""
+    if not isinstance(ast, tuple):
+        if isinstance(ast, list):
+            return [find_to_index(a) for a in ast]
+        return ast
+    if ast[0] == 'call' and ast[1] == ('id', 'std::find'):
+        a = ast[2]
+        ok = (len(a) == 3 and a[0][0] == 'call' and a[0][1][0] == 'mem' and a[0][1][2] == 'begin'
+              and a[1][0] == 'call' and a[1][1][0] == 'mem' and a[1][1][2] == 'end'
+              and a[0][1][1] == a[1][1][1] and not a[0][2] and not a[1][2])
+        if not ok:
+            raise cp.TranslationError('std::find over something other than X.begin(), X.end()')
+        return ('call', ('id', 'find_first'), [a[0][1][1], a[2]], None)
+    return tuple(find_to_index(a) for a in ast)
 
 
 def main(out_path):
@@ -91,7 +140,130 @@ def main(out_path):
         regions[nm] = {'file': 'functions/l1-norm.hpp', 'hash': cp.ast_hash(ss)}
         defs.append(txt)
 
-    hdr = file_header('C15 prox / projection kernels (componentwise).', nat_lits=lits)
+
+    # ------------------------------------------------------------------ L1NormComplex::prox
+    # The two `soft_thres` lambdas (scalar / per-component weight).  A `cplx_t` value is a pair
+    # (re, im): the lambda is translated once per component — `x.real()` / `x.imag()` read the
+    # components, `x` in value position is the component itself (std::complex<T> * T scales both
+    # parts; the literal `0` in the `?:` converts to (0, 0)).  A capture with initialiser
+    # (`[γλ{γ * λ}]`) becomes a leading declaration.
+    _, cbody = cp.find_region(src, r'struct\s+L1NormComplex\s*\{')
+    _, cprox = cp.find_region(cbody, r'real_t\s+prox\s*\(\s*crcmat')
+    lam_re = r'auto\s+soft_thres\s*=\s*\[([^\]]*)\]\s*\(([^)]*)\)\s*\{'
+    lams = list(re.finditer(lam_re, cprox))
+    if len(lams) != 2:
+        raise cp.TranslationError(f'L1NormComplex::prox: expected 2 soft_thres lambdas, found {len(lams)}')
+    for k, nm in ((0, 'cplxSoftScalarW'), (1, 'cplxSoftVectorW')):
+        m = lams[k]
+        ob = m.end() - 1
+        lbody = cprox[ob + 1:cp.match_brace(cprox, ob)]
+        ss = cp.parse_statements(lbody, type_names=['cplx_t'])
+        pre = []
+        for cap in [c.strip() for c in m.group(1).split(',') if c.strip()]:
+            mc = re.fullmatch(r'(\w+)\s*\{(.*)\}', cap, re.S)
+            if mc:
+                pre.append(('decl', 'real_t', mc.group(1), cp.parse_expression(mc.group(2))))
+            elif not re.fullmatch(r'[&=]?\w*', cap):
+                raise cp.TranslationError(f'unsupported lambda capture {cap!r}')
+        lparams = [q.strip() for q in m.group(2).split(',')]
+        if lparams[0] != 'cplx_t x' or lparams[1:] not in ([], ['real_t λ']):
+            raise cp.TranslationError(f'unexpected soft_thres parameter list {m.group(2)!r}')
+        ss = pre + ss
+        params = ['γ', 'λ', 'x.re', 'x.im']
+        for comp in ('re', 'im'):
+            ssc = [cplx_component(st, 'x', comp) for st in ss]
+            env = S(*params)
+            env['x_re'] = env['x.re']
+            env['x_im'] = env['x.im']
+            em = Emitter(lambda d: env.get(d), componentwise=True)
+            txt = em.function(f'{nm}_{comp}', [(n, env[n][0], 'S') for n in params], ssc, 'S',
+                              doc=f'functions/l1-norm.hpp L1NormComplex::prox, soft_thres lambda {k}, '
+                                  f'{comp} part of the returned cplx_t')
+            lits.update(em.nat_lits)
+            defs.append(txt)
+        defs.append(f'/-- soft_thres lambda {k} of L1NormComplex::prox as a map on (re, im) pairs -/\n'
+                    f'def {nm} (gamma : α) (lam : α) (x_re : α) (x_im : α) : α × α :=\n'
+                    f'  ({nm}_re gamma lam x_re x_im, {nm}_im gamma lam x_re x_im)\n')
+        regions[nm] = {'file': 'functions/l1-norm.hpp',
+                       'hash': cp.ast_hash([m.group(1), m.group(2), ss])}
+    # the returned values `λ * norm_1(out)` / `norm_1(out.cwiseProduct(λ))` (complex 1-norm)
+    for k, nm, lamty in ((0, 'cplxL1ValueScalarW', 'S'), (1, 'cplxL1ValueVectorW', 'V')):
+        st = cp.find_statement(cprox, r'return\s+[^;]*norm_1', k)
+        ss = [cplx_vector_ops(s_) for s_ in cp.parse_statements(st)]
+        env = {'λ': ('lam', lamty), 'out': ('out', 'CVec α')}
+        em = Emitter(lambda d: env.get(d),
+                     scalar_fns={'cnorm_1': ('cnorm1', ['CVec α'], 'S'),
+                                 'cscale': ('cscale', ['CVec α', 'V'], 'CVec α')})
+        txt = em.function(nm, [('λ', 'lam', lamty), ('out', 'out', 'CVec α')], ss, 'S',
+                          doc=f'functions/l1-norm.hpp L1NormComplex::prox, returned value {k}')
+        lits.update(em.nat_lits)
+        regions[nm] = {'file': 'functions/l1-norm.hpp', 'hash': cp.ast_hash(ss)}
+        defs.append(txt)
+
+    # ------------------------------------------------------------------ NuclearNorm::prox (post-SVD part)
+    nsrc = cp.strip_comments(open(INC + 'functions/nuclear-norm.hpp', encoding='utf8').read())
+    _, nbody = cp.find_region(nsrc, r'struct\s+NuclearNorm\s*\{')
+    _, nprox = cp.find_region(nbody, r'real_t\s+prox\s*\(\s*crmat')
+    # componentwise: step, singular_values = Zero.cwiseMax(σ − step)
+    ss = cp.parse_statements(cp.find_statement(nprox, r'auto\s+step\s*=') + '\n' +
+                             cp.find_statement(nprox, r'singular_values\s*='))
+    env = S('λ', 'γ')
+
+    def sv_method(obj, name, args, em_):
+        if name == 'singularValues' and dotted(obj) == 'svd' and not args:
+            return 'sigma', 'S'
+        return None
+    em = Emitter(lambda d: env.get(d), componentwise=True)
+    em.method_handler = sv_method
+    txt = em.function('nucThreshold', [('λ', 'lam', 'S'), ('γ', 'gamma', 'S'), ('σ', 'sigma', 'S')], ss, None,
+                      outputs=['singular_values'], out_types={'singular_values': 'S'},
+                      doc='functions/nuclear-norm.hpp NuclearNorm::prox: step, singular_values = … '
+                          '(one singular value)')
+    lits.update(em.nat_lits)
+    regions['nucThreshold'] = {'file': 'functions/nuclear-norm.hpp', 'hash': cp.ast_hash(ss)}
+    defs.append(txt)
+    # value = λ * norm_1(singular_values)
+    ss = cp.parse_statements(cp.find_statement(nprox, r'real_t\s+value\s*='))
+    env2 = {'λ': ('lam', 'S'), 'singular_values': ('singular_values', 'V')}
+    em = Emitter(lambda d: env2.get(d))
+    txt = em.function('nucValue', [('λ', 'lam', 'S'), ('singular_values', 'singular_values', 'V')], ss, None,
+                      outputs=['value'], out_types={'value': 'S'}, doc='functions/nuclear-norm.hpp NuclearNorm::prox: value')
+    lits.update(em.nat_lits)
+    regions['nucValue'] = {'file': 'functions/nuclear-norm.hpp', 'hash': cp.ast_hash(ss)}
+    defs.append(txt)
+    # rank: it0 = std::find(begin, end, 0); rank = it0 − begin
+    ss = cp.parse_statements(cp.find_statement(nprox, r'auto\s+it0\s*=') + '\n' +
+                             cp.find_statement(nprox, r'index_t\s+rank\s*='))
+    ss = [find_to_index(s_) for s_ in ss]
+    env3 = {'singular_values': ('singular_values', 'V')}
+
+    def it_method(obj, name, args, em_):
+        if name == 'begin' and not args and dotted(obj) in env3:
+            return '0', 'N'
+        if name == 'end' and not args and dotted(obj) in env3:
+            return f'(List.length {env3[dotted(obj)][0]})', 'N'
+        return None
+    em = Emitter(lambda d: env3.get(d), scalar_fns={'find_first': ('findFirstIdx', ['V', 'S'], 'N')})
+    em.method_handler = it_method
+    txt = em.function('nucRank', [('singular_values', 'singular_values', 'V')], ss, None,
+                      outputs=['rank'], out_types={'rank': 'N'}, doc='functions/nuclear-norm.hpp NuclearNorm::prox: it0, rank')
+    lits.update(em.nat_lits)
+    regions['nucRank'] = {'file': 'functions/nuclear-norm.hpp', 'hash': cp.ast_hash(ss)}
+    defs.append(txt)
+    # the selection that follows must use exactly `rank` leading columns / rows / values
+    sel = cp.find_statement(nprox, r'auto\s+sel\s*=')
+    if re.sub(r'\s+', '', sel) != 'autosel=seqN(0,rank);':
+        raise cp.TranslationError(f'NuclearNorm::prox: unexpected selection {sel!r}')
+    uses = [re.sub(r'\s+', '', cp.find_statement(nprox, a)) for a in
+            (r'auto\s*&&\s*U1\s*=', r'auto\s*&&\s*Σ1\s*=', r'auto\s*&&\s*V1T\s*=', r'out\.reshaped\(\)')]
+    expect = ['auto&&U1=U(all,sel);', 'auto&&Σ1=singular_values(sel).asDiagonal();',
+              'auto&&V1T=V.transpose()(sel,all);', 'out.reshaped().noalias()=(U1*Σ1*V1T).reshaped();']
+    if uses != expect:
+        raise cp.TranslationError(f'NuclearNorm::prox: reconstruction statements changed: {uses!r}')
+    regions['nucReconstruct'] = {'file': 'functions/nuclear-norm.hpp', 'hash': cp.ast_hash(uses + [sel])}
+
+    hdr = file_header('C15 prox / projection kernels (componentwise).',
+                      imports=('Alpaqa.Model.Vec', 'Alpaqa.Model.C15Base'), nat_lits=lits)
     text = hdr + '\n'.join(defs) + FILE_FOOTER
     old = open(out_path).read() if os.path.exists(out_path) else None
     if old != text:
